@@ -151,6 +151,17 @@ impl St {
                 }
             }
             Stmt::CreateIndex { cols, .. } => {
+                if has("mixed_type_index_out_of_table_order") && !matches!(exp, Expect::Fail(_)) {
+                    if let Some(ti) = ti {
+                        let t = &self.model.tables[ti];
+                        let idx: Vec<usize> = cols.iter().filter_map(|c| t.col(c)).collect();
+                        let sorted = idx.windows(2).all(|w| w[0] < w[1]);
+                        let same_ty = idx.windows(2).all(|w| t.cols[w[0]].ty == t.cols[w[1]].ty);
+                        if !sorted && !same_ty {
+                            return Some("mixed_type_index_out_of_table_order".into());
+                        }
+                    }
+                }
                 if has("create_index_inside_session") && !self.sess.is_empty() && !matches!(exp, Expect::Fail(_)) {
                     return Some("create_index_inside_session".into());
                 }
@@ -382,7 +393,7 @@ pub fn first_violation(events: &[Event], guards: &[String]) -> Option<(usize, St
                     return Some((i, "checkpoint_with_open_txn".into()));
                 }
             }
-            Event::Analyze | Event::Check => {}
+            Event::Analyze | Event::Check | Event::TxnBurst(_) => {}
         }
     }
     None
